@@ -14,6 +14,7 @@ from __future__ import annotations
 import ast
 
 from sa import mutate as M
+from sa import pattern as PT
 from sa.ctx import Ctx
 from sa.loader import AnalysisError, call_name, norm, own_nodes, parent
 from sa.ranges import has, has_bound, refusal_constraints
@@ -116,7 +117,7 @@ def rule_sibling_order(ctx: Ctx, rep: Report) -> None:
     rep.ob(rule, "builder:min||max", ok_b, th.where(), f"orderings {res_b}" if res_b else "swap shape not recognised")
     rep.ob(rule, "agree", ok_v and ok_b, th.where(), "builder and verifier concatenate the two hashes in the same order in all three cases")
     # the builder hands each leaf the sibling hash of the other side
-    txt = norm(th.node)
+    txt = PT.text(th)
     rep.ob(rule, "builder:paths", "[(leaf, c + right_h) for leaf, c in left]" in txt and "[(leaf, c + left_h) for leaf, c in right]" in txt, th.where(), "left leaves get right_h appended, right leaves left_h")
     sw_line = sw[0].lineno if sw else 0
     info = [n for n in own_nodes(th.node) if isinstance(n, (ast.Assign, ast.AugAssign)) and norm(n.targets[0] if isinstance(n, ast.Assign) else n.target) == "info"]
@@ -132,7 +133,7 @@ def rule_shapes(ctx: Ctx, rep: Report) -> None:
     rule = "C12.shapes"
     lh = ctx.func(f"{T}.leaf_hash")
     th = [c for c in own_nodes(lh.node) if isinstance(c, ast.Call) and call_name(c) == "tagged_hash"]
-    txt = norm(lh.node)
+    txt = PT.text(lh)
     rep.ob(rule, "leaf_hash", bool(th) and ctx.fold(th[0].args[0], lh.module) == b"TapLeaf" and "leaf_version.to_bytes(1" in txt and "var_bytes.serialize(script)" in txt, lh.where(), "TapLeaf(version || compact_size(len) || script)")
     co = ctx.func(f"{T}.check_output_pubkey")
     c0 = [c for c in own_nodes(co.node) if isinstance(c, ast.Call) and call_name(c) == "leaf_hash"]
@@ -145,11 +146,11 @@ def rule_shapes(ctx: Ctx, rep: Report) -> None:
     pb = [n for n in own_nodes(co.node) if isinstance(n, ast.Assign) and norm(n.targets[0]) == "p_bytes"]
     rep.ob(rule, "verifier:internal_key_slice", bool(pb) and norm(pb[0].value) == "control[1:33]", co.where(), "internal key = control[1:33]")
     pv = ctx.func(f"{T}._tweaked_prvkey")
-    txt = norm(pv.node)
+    txt = PT.text(pv)
     rep.ob(rule, "prvkey:negated_iff_odd_y", "has_even_y = P[1] % 2 == 0" in txt and "internal_prvkey if has_even_y else secp256k1.n - internal_prvkey" in txt, pv.where(), "d := n - d exactly when the public point has odd y")
     rep.ob(rule, "prvkey:sum_mod_n", "(internal_prvkey + t) % secp256k1.n" in txt, pv.where(), "(d + t) mod n")
     pk = ctx.func(f"{T}._tweaked_pubkey")
-    txt = norm(pk.node)
+    txt = PT.text(pk)
     rep.ob(rule, "pubkey:even_y_lift", "y_P if y_P % 2 == 0 else secp256k1.p - y_P" in txt, pk.where(), "the internal key is lifted to even y")
     rep.ob(rule, "pubkey:returns_parity", "Q[1] % 2" in txt, pk.where(), "the output key's parity is returned")
     rep.ob(rule, "pubkey:x_only_internal", "pub_key.sec[1:33]" in txt, pk.where(), "the tweak commits to the 32-byte x of the internal key")
